@@ -10,6 +10,7 @@ away from a thread that is still enabled costs one preemption.
 Timed waits become enabled by time-out only at quiescence (no other thread is
 enabled); virtual time then jumps to the earliest deadline.
 """
+import hashlib
 import threading
 import time as _rt
 
@@ -300,7 +301,14 @@ def explore_schedules(harness, bound, max_exec=None, on_exec=None, horizon=5000,
         if on_exec is not None:
             on_exec(s, out)
         key = repr(out)
-        stats["outcomes"][key] = stats["outcomes"].get(key, 0) + 1
+        if len(key) > 120:
+            # (outputs that carry an event log differ for nearly every schedule: keeping their text costs gigabytes
+            # at a preemption bound of 3; the number of distinct outputs is what the evidence needs)
+            key = hashlib.blake2b(key.encode(), digest_size=8).hexdigest()
+        if key in stats["outcomes"] or len(stats["outcomes"]) < 200000:
+            stats["outcomes"][key] = stats["outcomes"].get(key, 0) + 1
+        else:
+            stats["outcomes_not_kept"] = stats.get("outcomes_not_kept", 0) + 1
         if max_exec is not None and stats["executions"] >= max_exec:
             stats["capped"] = True
             break
